@@ -24,6 +24,12 @@ STRENGTH = {
     "C14-m4": "missed at first; caught after the lookups-racing-toggles case",
     "C07-m1": "caught by random histories at first, missed after the generator changed, caught for good by the directed replay scenarios",
     "C05-m2": "written against the delta-counting merge that was later repaired (d18db5e): no longer applies",
+    "C01-m6": "missed at first; caught after share groups of 129-300 members that are looked up, dissolved and followed by lookups of lone members",
+    "C03-m5": "missed at first; caught after keys expiring at the edges of the 32-bit expiry field (2010, 2106-2146, clamped dates)",
+    "C03-m6": "not seen by C03 / C14 (the alternate spelling decrypts to the same key); caught by C20 (the decoder must reject characters outside its alphabet)",
+    "C06-m5": "missed at first; caught after stores on one channel with payloads of 2 / 20000 / 30000 / 40000 bytes mixed (cap crossed in the middle of a page)",
+    "C06-m6": "missed at first; caught after one-second and inverted windows",
+    "C11-m5": "missed at first because the expiry comparison tolerated 0 next to 1-3 (a looseness of the check, corrected: 0 = never expires is near nothing else)",
     "C02-m3": "missed at first; caught after re-subscribing held filters (generator bias + the filter-subscribed-twice scenario)",
     "C02-m4": "missed at first; caught after links that carry channel options (me=0, ttl) used by a subscribed connection",
     "C07-m3": "missed at first; caught after retained publishes with ttl=0",
